@@ -222,3 +222,20 @@ impl TlsAcceptor {
         self.inner.into_stream(tls_config).await
     }
 }
+
+#[cfg(feature = "verif")]
+pub(crate) mod verif_hooks {
+    use super::*;
+
+    pub fn extract(data: &[u8]) -> (u8, Vec<u8>) {
+        match TlsListener::extract_client_random(data) {
+            ClientRandomExtraction::Found(x) => (0, x),
+            ClientRandomExtraction::NeedMoreData => (1, vec![]),
+            ClientRandomExtraction::NotFound => (2, vec![]),
+        }
+    }
+
+    pub async fn peek(stream: TcpStream) -> io::Result<(PrebufferedTcpStream, Option<Vec<u8>>)> {
+        TlsListener::read_client_random_and_wrap_stream(stream).await
+    }
+}
